@@ -15,7 +15,8 @@
 (*                 inputs must not matter (the output stays a float record)*)
 (*   kind "siso"   q = 1: r is sqrt(Gyy(1-coh))^2/Gyy from the two-channel *)
 (*                 analysis itself                                         *)
-(* Every clause is asserted on bins averaged over more than q segments:    *)
+(* c.kmin = q, or 64 for nearly collinear inputs (condition number 1e8).   *)
+(* Every clause is asserted on bins averaged over more than kmin segments: *)
 (* with K <= q the spectral matrix of the inputs is singular and the       *)
 (* optimal transfer functions are not defined.                             *)
 (***************************************************************************)
@@ -32,11 +33,13 @@ Ref(j) == T.ev[j]
 Step ==
     /\ l <= Len(T.ev)
     /\ LET e == Ev IN
-       /\ Check("C15:residual_between_zero_and_output_spectrum", e.K <= T.c.q \/ (e.r >= 0 /\ e.r <= Q + 4))
-       /\ Check("C15:residual_unchanged_by_reordering_remixing_solver", e.kind # "same" \/ e.K <= T.c.q \/ Within(e.r, Ref(e.j).r, 16))
-       /\ Check("C15:residual_zero_for_exact_combination", e.kind # "zero" \/ e.K <= T.c.q \/ e.r <= 16)
-       /\ Check("C15:residual_independent_of_sample_number_format", e.kind # "pair" \/ e.K <= T.c.q \/ Within(e.r, e.r0, 4))
-       /\ Check("C15:single_input_residual_is_Gyy_times_one_minus_coherence", e.kind # "siso" \/ e.K <= T.c.q \/ Within(e.r, Ref(e.j).r, 16))
+       /\ Check("C15:residual_between_zero_and_output_spectrum", e.K <= T.c.kmin \/ (e.r >= 0 /\ e.r <= Q + 4))
+       /\ Check("C15:residual_unchanged_by_reordering_remixing_solver", e.kind # "same" \/ e.K <= T.c.kmin \/ Within(e.r, Ref(e.j).r, 16))
+       /\ Check("C15:residual_zero_for_exact_combination", e.kind # "zero" \/ e.K <= T.c.kmin \/ e.r <= 16)
+       \* the same in power units of 2^-30 (an ASD ratio of 6e-5): "zero to rounding" also for inputs correlated to 1e-4, where rounding is 1e-7
+       /\ Check("C15:residual_zero_to_rounding_for_exact_combination", e.kind # "zero" \/ e.K <= T.c.kmin \/ e.r30 <= 4)
+       /\ Check("C15:residual_independent_of_sample_number_format", e.kind # "pair" \/ e.K <= T.c.kmin \/ Within(e.r, e.r0, 4))
+       /\ Check("C15:single_input_residual_is_Gyy_times_one_minus_coherence", e.kind # "siso" \/ e.K <= T.c.kmin \/ Within(e.r, Ref(e.j).r, 16))
     /\ l' = l + 1 /\ UNCHANGED tid
 Next == Step
 Spec == Init /\ [][Next]_vars
